@@ -53,6 +53,7 @@ var SEQ = (function(){
       // funcObject creates 'prototype' lazily: its position among the own keys depends on whether the keys were listed
       // before a later property was added (still reproduces after d5289af; design/C11.md §4).  Materialise it in both twins.
       Reflect.ownKeys(o); return o;
+    case "fnlazy": o = function(a){ return (a|0)+1; }; o.x = 1; return o;
     case "args": return (function(a,b){ return arguments; })(1,2);
     case "margs": return (function(a,b){ "non-strict-marker"; return arguments; }).call(null,1,2);
     case "ta": return new Uint8Array([1,2,3]);
